@@ -128,7 +128,7 @@ def main():
     args = sys.argv[1:]
     def opt(name, default):
         return args[args.index(name) + 1] if name in args else default
-    n = int(opt('--n', '200')); seed = int(opt('--seed', '1')); out_file = opt('--out', os.path.join(VERIF, 'mutants.json'))
+    n = int(opt('--n', '200')); seed = int(opt('--seed', '1')); out_file = opt('--out', os.path.join(VERIF, 'mutants.json')); offset = int(opt('--offset', '0'))
     files = opt('--files', ','.join(FILES)).split(',')
     rnd = random.Random(seed)
     work = tempfile.mkdtemp(prefix='mut.', dir='/dev/shm')
@@ -146,7 +146,7 @@ def main():
         if not os.path.exists(os.path.join(VERIF, 'build', 'model_drv')):
             sh('bash tools/setup.sh', cwd=VERIF, env=dict(os.environ, VERIF_REPO=BASE))
         results = []
-        for k, (f, a, b, rep, kind) in enumerate(all_sites[:n]):
+        for k, (f, a, b, rep, kind) in enumerate(all_sites[offset:offset + n], start=offset):
             mroot = os.path.join(work, 'm'); shutil.rmtree(mroot, ignore_errors=True)
             shutil.copytree(base, mroot, symlinks=True)
             src = open(os.path.join(base, f), encoding='utf-8', errors='replace').read()
